@@ -202,6 +202,31 @@ fn run_inner(rep: &mut Rep) {
         let enc = enc_witness(&w);
         rep.ev();
         rep.stratum(format!("witness|{lab}"));
+        // truncation / extension (every length for a subset of witnesses, among them encodings whose two vectors differ
+        // in length; done before - and whether or not - the full encoding decodes)
+        if i % (if thorough { 20 } else { 100 }) == 0 || (w.bits.len() != w.path.len() && (i / 6) % 7 < 2) {
+            for cut in 0..enc.len() {
+                rep.ev();
+                trunc_checked += 1;
+                match catch(|| deserialize_witness(&enc[..cut]).is_ok()) {
+                    Ok(true) => viol(rep, "witness:truncated-accepted", json!({"case": lab, "full_len": enc.len(), "cut": cut})),
+                    Ok(false) => {}
+                    Err(_) => trunc_panics += 1,
+                }
+            }
+            for extra in 1..=40usize {
+                rep.ev();
+                trunc_checked += 1;
+                let mut e2 = enc.clone();
+                e2.extend(rand_bytes(&mut rng, extra));
+                match catch(|| deserialize_witness(&e2).is_ok()) {
+                    Ok(true) => viol(rep, "witness:trailing-accepted", json!({"case": lab, "full_len": enc.len(), "extra": extra})),
+                    Ok(false) => {}
+                    Err(_) => trunc_panics += 1,
+                }
+            }
+            rep.stratum(format!("witness-trunc|depth={depth}|index-len{}path-len", match w.bits.len().cmp(&w.path.len()) { std::cmp::Ordering::Less => "<", std::cmp::Ordering::Equal => "==", std::cmp::Ordering::Greater => ">" }));
+        }
         let dec = catch(|| deserialize_witness(&enc));
         let zw = match dec {
             Ok(Ok((zw, read))) => {
@@ -260,30 +285,6 @@ fn run_inner(rep: &mut Rep) {
                 }
                 _ => viol(rep, "witness_bigint_json:fail", json!({"case": lab})),
             }
-        }
-        // truncation / extension (every length for a subset of witnesses)
-        if i % (if thorough { 20 } else { 100 }) == 0 {
-            for cut in 0..enc.len() {
-                rep.ev();
-                trunc_checked += 1;
-                match catch(|| deserialize_witness(&enc[..cut]).is_ok()) {
-                    Ok(true) => viol(rep, "witness:truncated-accepted", json!({"case": lab, "full_len": enc.len(), "cut": cut})),
-                    Ok(false) => {}
-                    Err(_) => trunc_panics += 1,
-                }
-            }
-            for extra in 1..=40usize {
-                rep.ev();
-                trunc_checked += 1;
-                let mut e2 = enc.clone();
-                e2.extend(rand_bytes(&mut rng, extra));
-                match catch(|| deserialize_witness(&e2).is_ok()) {
-                    Ok(true) => viol(rep, "witness:trailing-accepted", json!({"case": lab, "full_len": enc.len(), "extra": extra})),
-                    Ok(false) => {}
-                    Err(_) => trunc_panics += 1,
-                }
-            }
-            rep.stratum(format!("witness-trunc|depth={depth}"));
         }
     }
     rep.countn("witness_truncations_checked", trunc_checked);
